@@ -30,6 +30,16 @@ Reading
   THEN (after `score[i] = part`, `score.parts = [...]`, append / pop / reverse, or in the Score returned by
   unfold_part_maximal / unfold_part_minimal, which replace `.parts` only), the Part objects reached through `.children`
   from a group / list / tuple.  `Score.part_structure` is never updated by the implementation and is not "the parts".
+* "every input" / "a list holding one": the inputs are the different Part OBJECTS reachable in the argument.  A part
+  that is reachable twice (listed twice, or on its own and inside its group) is one input (fixes/C15-11); parts that
+  carry the same `id` ("P1" of two separately loaded files), no id, or equal contents are different inputs.  For an
+  argument that lists a part twice the score-level note array is taken over the different parts.
+* `reassign`: the three modes; any other value must be rejected whatever the argument is (the oracle only demands
+  rejection, the model says that it happens before the argument is looked at); left out it is "voice".  An argument
+  that holds an object that is neither a Part nor a PartGroup (None, a nested list, a Score inside a list) or no part
+  at all is outside the property: only compared with the model (both reject).
+* "every ... element": the very same object with every instance attribute other than start / end / voice / staff as it
+  was (an attribute `_xxx` that did not exist before is book-keeping of the implementation, not of the element).
 * "All scores ...": the property quantifies over the STATE of the inputs at the time of the call, whatever history led
   to it: every voice, staff, pitch, tie and divisions value is the one the objects carry then (attributes assigned in
   place after the part was built and after any read-only view of it was computed: `note.staff = 2` ...), and an
@@ -47,7 +57,8 @@ import gen_score as G
 
 PROPERTY = "C15"
 DRIVER = "drv_c15"
-PROPS = ["PartituraModel.Props.C15", "PartituraModel.Props.C15Ext", "PartituraModel.Props.C15Hist"]
+PROPS = ["PartituraModel.Props.C15", "PartituraModel.Props.C15Ext", "PartituraModel.Props.C15Hist",
+         "PartituraModel.Props.C15Call", "PartituraModel.Props.C15Timeline"]
 TRUSTED = [
     "Part.iter_all() / TimePoint registries as the source of the abstract element lists (their order is what the model "
     "sorts by: time point, class walk of Gen/Classes.lean, insertion); objects that only have an end are read from the "
@@ -56,8 +67,18 @@ TRUSTED = [
     "references is unfolded by the harness and re-checked on every generated note)",
     "np.unique / np.lcm.reduce / max(default=1) as sorted distinct values, least common multiple and maximum; "
     "int(lcm / d) as the exact quotient (float division: exact below 2**53)",
-    "identity of Python objects is represented by a number per object (merge_parts moves objects, never copies them); "
-    "the references of an object are the TimedObjects found in its instance attributes (directly or in a list)",
+    "identity of Python objects is represented by a number per object - per element and per Part (merge_parts moves "
+    "objects, never copies them; `{id(p): p for p in parts}` keeps the first occurrence of every identity); "
+    "the references of an object are the TimedObjects found in its instance attributes (directly or in a list); all its "
+    "other instance attributes (except start / end / voice / staff) travel as one crc32 of their plain values",
+    "Part.add / get_or_add_point / _add_point of the NEW part as Model.Merge.addObject / getOrAddPoint (np.searchsorted "
+    "= number of earlier points, np.insert = insertion at that index, quarter of a new point = the constant quarter map "
+    "of Part(id, quarter_duration=lcm)); prev / next links and the registries of the points are C01's subject",
+    "exceptions are compared as accepted / rejected only: which check raises (MergeErr: reassign, argument, divisions, "
+    "other) is the model's reading of the order of the statements, observable through which inputs are accepted (an "
+    "invalid reassign with a single part, a single part with several divisions ...)",
+    "harness/translate_c15.py (Gen/C15Call.lean): inspect.signature of merge_parts and the ast of iter_parts / "
+    "load_score_as_part; a source it cannot read yields callOk = false and breaks C15.call_source",
     "parts with other than exactly one quarter duration are sent to the model as divisions 0 through Model.Merge.divsOf "
     "(rejected there: multi_division_rejected)",
     "harness/translate_c15.py: the ast reading of merge_parts (class tuples per mode, isinstance guards of the voice / "
@@ -74,10 +95,9 @@ TRUSTED = [
 PARTIAL = [
     "auto mode: disjoint voices are proved under the documented assumption of at most 4 voices per staff "
     "(voices_disjoint_auto_partial); the negation is proved at a witness and proposed as open finding F-C15-6",
-    "the time points of the merged part and their quarter value are compared with the model on generated inputs and "
-    "files, not stated as theorems (the order of iteration is: merged_order)",
-    "attributes other than class, times, voice, staff, pitch, tie links and references to other objects are covered "
-    "by object identity in the oracle (the same objects are re-registered), not by the model",
+    "int(lcm / d): the float division is trusted to be exact (below 2**53); the theorems use the integer quotient",
+    "a note without voice: the model rejects (mergeParts = none) where staff / auto mode of the code accept parts ALL of "
+    "whose notes lack a voice; outside the domain of the property, not generated",
     "load_score_as_part is modelled from the loaded score on (loadScoreAsPart = merge in voice mode); that the loaders "
     "deliver parts in the domain of the property is only observed on the scores of tests/data",
 ]
@@ -94,7 +114,13 @@ RULE = ("corpus + seeded scores / part groups / nested groups / lists of 1-4 par
         "removed, pitch, tie removed, divisions multiplied), end-only directions that carry the highest staff; "
         "x every input FORM: list, tuple, group, nested groups, Score, and Score objects whose parts were replaced "
         "after construction (score[i] = p, score.parts = [...], append, pop, reverse, unfold_part_maximal / _minimal "
-        "of generated scores with a repeat and of the test files); distinct = distinct "
+        "of generated scores with a repeat and of the test files); "
+        "x IDENTITY of the parts: all / some parts sharing an id, ids None, a part built twice from one description "
+        "(equal contents, another object), a part listed twice / again at the end / on its own and inside a group, one "
+        "part reachable two or three times, Score histories that put a part into score.parts twice; "
+        "x the CALL: reassign left out, rejected values of reassign (both, Voice, '', None, ...) with several parts, one "
+        "part, no part, a bad argument; arguments that hold None / a nested list / a tuple / a Score / a string / a "
+        "number at top level, inside the list, inside nested groups; arguments without any part; distinct = distinct "
         "request line; trivial = rejected input or an input outside the domain (a note without voice ...)")
 LEVEL_TEXT = ("Lean 4 theorems over all lists of abstract parts: exact time preservation under lcm rescaling, sounding rows "
               "equal to the rescaled rows of the inputs, voice/staff disjointness across and preservation within parts by "
@@ -108,10 +134,20 @@ LEVEL_TEXT = ("Lean 4 theorems over all lists of abstract parts: exact time pres
               "score_assign_last, stale_structure_witness), renumbered voices / staves of later parts lie strictly "
               "above those of earlier parts and the offsets are the least possible, so that every element - also one "
               "that is on the timeline by its end only - must be counted as it is at the time of the call "
-              "(staves_ordered, staff_offset_tight, voices_ordered, voice_offset_tight); the model is tied to merge_parts and "
+              "(staves_ordered, staff_offset_tight, voices_ordered, voice_offset_tight); the CALL as a whole (Props/C15Call: "
+              "reassign validated first and defaulting to voice, objects that are neither parts nor groups rejected at any "
+              "depth, order of the checks - single part before divisions before the rest -, mergeCall refines mergeArg: "
+              "call_agrees; parts told apart by identity: distinct_parts_spec, equal_parts_stay_apart, listed_twice_once; "
+              "load_score_as_part = the default call on score.parts, with the literal facts regenerated from the sources: "
+              "call_source); the timeline of the merged part built by Part.add in the order of the loop is the sorted union "
+              "of the rescaled start / end times of the transferred objects with quarter lcm at every point, independent of "
+              "the insertion order (Props/C15Timeline: timeline_built, merged_timeline, timeline_union, first_part_points), "
+              "the divisions are the LEAST common multiple (lcm_least), every other attribute of a transferred object is "
+              "untouched and no object is copied or registered twice (attrs_untouched, no_copies); "
+              "the model is tied to merge_parts and "
               "load_score_as_part by a differential run on generated scores and on the multi-part scores of tests/data "
-              "(every kept object's identity, class, times, voice, staff, references; time points and their quarter; "
-              "note arrays).")
+              "(every kept object's identity, class, times, voice, staff, references, fingerprint of all other "
+              "attributes; time points and their quarter; note arrays; accepted / rejected for every form of call).")
 
 MODES = ("voice", "staff", "auto")
 STEPS = "CDEFGAB"
@@ -318,6 +354,85 @@ def gen_shape(rng, n, single_kind=None):
     return {"score": rng.random() < 0.5, "shape": ["many", nest(leaves)]}
 
 
+BAD_KINDS = ["none", "list", "tuple", "score", "str", "int"]
+
+
+def add_identity(rng, d, kind=None):
+    """IDENTITY vs EQUALITY of the parts of the argument (the parts are different objects unless the shape names the
+    same index twice):
+      same_id      every part carries the same `id` ("P1", as the only parts of separately loaded files do)
+      some_id      two of the parts share an id, the others have their own
+      none_id      the ids are None
+      equal        part 1 is built from the description of part 0: equal id, note ids, contents - another object
+      twice        a part is listed twice in the list          back    ... the first part again at the end
+      in_group     a part on its own and inside a group (before or after it)
+      only_twice   ONE part, reachable two or three times (list, group, both): it is returned as is"""
+    import copy
+
+    n = len(flat_order(d["arg"]))
+    kind = kind or rng.choice(["same_id", "same_id", "some_id", "none_id", "equal", "twice", "back", "in_group",
+                               "in_group", "only_twice"])
+    d["ident"] = kind
+    parts = d["parts"]
+    if kind == "same_id":
+        for pd in parts:
+            pd["id"] = "P1"
+    elif kind == "some_id":
+        i, j = rng.sample(range(len(parts)), 2) if len(parts) > 1 else (0, 0)
+        parts[j]["id"] = parts[i]["id"]
+    elif kind == "none_id":
+        for pd in parts:
+            pd["id"] = None
+    elif kind == "equal" and len(parts) > 1:
+        parts[1] = copy.deepcopy(parts[0])
+    elif kind in ("twice", "back", "in_group") and not d["arg"].get("ops"):
+        order = flat_order(d["arg"])
+        leaves = [["P", i] for i in order]
+        k = rng.randrange(len(order))
+        if kind == "twice":
+            leaves.insert(rng.randrange(len(leaves) + 1), ["P", order[k]])
+        elif kind == "back":
+            leaves.append(["P", order[0]])
+        else:
+            g = ["G", [["P", order[k]]] + ([["P", order[(k + 1) % n]]] if rng.random() < 0.5 else [])]
+            leaves.insert(rng.choice([0, k, k + 1, len(leaves)]), g)
+        d["arg"] = {"score": d["arg"]["score"], "shape": ["many", leaves]}
+        if d["arg"]["score"] and rng.random() < 0.5:
+            d["arg"]["score"] = False
+    elif kind == "only_twice":
+        i = flat_order(d["arg"])[0]
+        d["arg"] = {"score": False, "shape": rng.choice([
+            ["many", [["P", i], ["P", i]]], ["many", [["P", i], ["G", [["P", i]]]]], ["one", ["G", [["P", i], ["P", i]]]],
+            ["many", [["G", [["P", i]]], ["P", i], ["G", [["G", [["P", i]]]]]]]])}
+    return d
+
+
+def add_call(rng, d, kind):
+    """the CALL: values of `reassign` that are rejected (whatever the argument is), the argument left out, objects in
+    the argument that are neither parts nor groups"""
+    d["callkind"] = kind
+    if kind == "omit":
+        d["mode"], d["omit"] = "voice", True
+    elif kind == "badmode":
+        d["mode"] = rng.choice(["both", "Voice", "", "voices", "staff ", "AUTO", None, "none", "-"])
+    elif kind == "badarg":
+        sh = d["arg"]["shape"]
+        x = ["X", rng.choice(BAD_KINDS)]
+        if sh[0] == "one" or rng.random() < 0.2:
+            # (at top level a Score or a list is a valid form of the argument, not a foreign object)
+            top = ["X", rng.choice(["none", "str", "int"])]
+            d["arg"] = {"score": False, "shape": rng.choice([["one", top], ["many", [x]], ["one", ["G", [x]]]])}
+        else:
+            leaves = list(sh[1])
+            leaves.insert(rng.randrange(len(leaves) + 1), x if rng.random() < 0.7 else ["G", [["G", [x]]]])
+            d["arg"] = {"score": False, "shape": ["many", leaves]}
+    elif kind == "nothing":
+        d["arg"] = {"score": False, "shape": rng.choice([["many", []], ["one", ["G", []]], ["many", [["G", []], ["G", [["G", []]]]]]])}
+        if rng.random() < 0.3:
+            d["arg"]["tuple"] = True
+    return d
+
+
 def gen_case(rng, mode=None, nparts=None, divs=None, **o):
     if divs is None:
         divs = list(rng.choice(DIV_SETS))
@@ -440,6 +555,8 @@ def add_score_ops(rng, d, kinds=None):
         out = [k for k in allp if k not in cur]
         if rng.random() < 0.3:
             ops.append(["read"])
+        if rng.random() < 0.12 and kind in ("setitem", "append"):
+            out = list(allp)    # a part that is already there: score.parts then lists a Part object twice
         if kind == "grow" and out:
             ops.append(["grow", rng.choice(out)])
         elif kind == "setitem" and out and cur:
@@ -549,7 +666,7 @@ def _finding_registered(sig):
 
 
 def cases(rng, tier):
-    n = {"quick": 44, "thorough": 2000, "search": 5000}.get(tier, 44)
+    n = {"quick": 34, "thorough": 1700, "search": 5000}.get(tier, 34)
     # deterministic block: every class in every part, every mode; the division tuples of the property text
     for mode in MODES:
         yield gen_case(rng, mode, divs=[3, 4], allclasses=True)
@@ -589,6 +706,27 @@ def cases(rng, tier):
     yield add_score_ops(rng, gen_case(rng, divs=[4, 6], spare=0, shape_kind="score", small=True), ["pop"])   # one part is left
     yield add_score_ops(rng, gen_case(rng, divs=[2, 3], spare=1, shape_kind="score_group", small=True), ["grow"])
     yield gen_case(rng, divs=[3, 4, 6], shape_kind="tuple", small=True)
+    # identity, not equality, of the parts: equal ids / contents, a part that is reachable twice - every kind once
+    for kind, dv in (("same_id", [2, 3]), ("same_id", [4, 4, 6]), ("some_id", [2, 3, 3]), ("none_id", [3, 4]),
+                     ("equal", [2, 2]), ("equal", [3, 3, 4]), ("twice", [2, 3]), ("back", [3, 4]), ("in_group", [2, 3]),
+                     ("in_group", [4, 6, 3]), ("only_twice", [4]), ("only_twice", [3])):
+        yield add_identity(rng, gen_case(rng, divs=dv, shape_kind=rng.choice(["list", "list", "tuple", "score"]), small=True), kind)
+    c = add_identity(rng, gen_case(rng, "voice", divs=[2, 3], shape_kind="list", small=True), "same_id")
+    c["omit"] = True     # merge_parts([part of one file, part of another]) as it is usually written
+    yield c
+    # the call: rejected values of reassign x (several parts, one part, nothing, a bad argument); reassign left out;
+    # objects that are neither parts nor groups
+    for k in range(3):
+        yield add_call(rng, gen_case(rng, divs=[2, 3], small=True, shape_kind="list"), "badmode")
+    yield add_call(rng, gen_case(rng, divs=[4], single_kind="list"), "badmode")
+    yield add_call(rng, add_call(rng, gen_case(rng, divs=[2], single_kind="part"), "nothing"), "badmode")
+    yield add_call(rng, add_call(rng, gen_case(rng, divs=[2, 2], small=True, shape_kind="list"), "badarg"), "badmode")
+    for k in range(3):
+        yield add_call(rng, gen_case(rng, divs=list(rng.choice([(2, 3), (4, 4, 6)])), small=True, shape_kind="list"), "badarg")
+    yield add_call(rng, gen_case(rng, divs=[3], single_kind="part"), "badarg")
+    yield add_call(rng, gen_case(rng, divs=[3], single_kind="part"), "nothing")
+    yield add_call(rng, gen_case(rng, divs=[3, 4], small=True), "omit")
+    yield add_call(rng, gen_case(rng, divs=[5], single_kind="group"), "omit")
     yield from file_cases(rng, tier)
     overflow = _finding_registered("auto-voice-overflow")
     for i in range(n):
@@ -612,6 +750,11 @@ def cases(rng, tier):
             c = gen_case(rng)
         if rng.random() < 0.35:
             add_history(rng, c)
+        r = rng.random()
+        if r < 0.22 and len(c["parts"]) >= 1:
+            add_identity(rng, c)
+        elif r < 0.30 and not c["arg"]["score"]:
+            add_call(rng, c, rng.choice(["badmode", "badarg", "badarg", "omit", "omit", "nothing"]))
         yield c
 
 
@@ -658,10 +801,18 @@ def build_arg(spec, parts):
     def tree(t):
         if t[0] == "P":
             return parts[t[1]]
+        if t[0] == "X":
+            # an object that is neither a Part nor a PartGroup
+            if t[1] == "score":
+                q = S.Part("Q", quarter_duration=1)
+                q.add(S.Note(step="C", octave=4, voice=1, id="q0"), 0, 1)
+                return S.Score([q])
+            return {"none": None, "list": [], "tuple": (), "str": "P1", "int": 3}[t[1]]
         g = S.PartGroup(group_symbol="bracket", group_name="g")
         g.children = [tree(c) for c in t[1]]
         for c in g.children:
-            c.parent = g
+            if isinstance(c, (S.Part, S.PartGroup)):
+                c.parent = g
         return g
 
     sh = spec["shape"]
@@ -848,9 +999,27 @@ def build_input(d, S):
 def flat_order(spec):
     """part indices in the order the parts are merged (plain recursion over the description)"""
     def rec(t):
-        return [t[1]] if t[0] == "P" else [i for c in t[1] for i in rec(c)]
+        return [t[1]] if t[0] == "P" else [] if t[0] == "X" else [i for c in t[1] for i in rec(c)]
     sh = spec["shape"]
     return rec(sh[1]) if sh[0] == "one" else [i for c in sh[1] for i in rec(c)]
+
+
+def has_bad(spec):
+    """the description holds an object that is neither a Part nor a PartGroup"""
+    def rec(t):
+        return t[0] == "X" or (t[0] == "G" and any(rec(c) for c in t[1]))
+    sh = spec["shape"]
+    return rec(sh[1]) if sh[0] == "one" else any(rec(c) for c in sh[1])
+
+
+def distinct(order):
+    """the different parts of a listing (the entries are indices into the list of Part objects, which are all
+    different objects), each at its first position"""
+    out = []
+    for i in order:
+        if i not in out:
+            out.append(i)
+    return out
 
 
 def structure_tree(x, index, S):
@@ -961,18 +1130,52 @@ def enc_elem(e, oid, S):
     isg = isinstance(e, S.GenericNote)
     isn = isinstance(e, S.Note)
     chain = [oid.of(x) for x in e.tie_next_notes] if isn and e.start is not None else []
-    return "%d %s %d %s %s %s %s %s %s %s" % (
+    return "%d %s %d %s %s %s %s %s %s %s %d" % (
         oid.get(e), W.s(type(e).__name__), 0 if e.start is None else e.start.t,
         W.opt(W.i, None if getattr(e, "end", None) is None else e.end.t),
         W.opt(W.i, e.voice if isg else None), W.opt(W.i, getattr(e, "staff", None)),
         W.opt(W.i, e.midi_pitch if isn else None), W.b(isg and e.tie_prev is not None), W.lst(W.i, chain),
-        W.lst(W.i, [oid.of(x) for x in ref_objects(e, S)]))
+        W.lst(W.i, [oid.of(x) for x in ref_objects(e, S)]), attr_crc(e, S))
+
+
+def norm_value(v, S, depth=0):
+    """a plain value for an attribute value: numbers, strings, None, and lists / tuples / dicts of these; an object
+    of the score is not followed (references are compared by identity elsewhere), anything else counts by its type"""
+    import numpy as np
+
+    if v is None or isinstance(v, (bool, int, float, str)):
+        return v
+    if isinstance(v, np.generic):
+        return v.item()
+    if isinstance(v, (S.TimedObject, S.TimePoint, S.Part)):
+        return "<%s>" % type(v).__name__
+    if depth > 4:
+        return "<...>"
+    if isinstance(v, (list, tuple)):
+        return [norm_value(x, S, depth + 1) for x in v]
+    if isinstance(v, dict):
+        return sorted((str(k), norm_value(x, S, depth + 1)) for k, x in v.items())
+    if isinstance(v, np.ndarray):
+        return ["nd"] + v.tolist()
+    return "<%s>" % type(v).__name__
+
+
+def attr_state(e, S):
+    """every instance attribute of an object except the four merge_parts assigns (start / end through Part.add,
+    voice, staff)"""
+    return {k: norm_value(v, S) for k, v in vars(e).items() if k not in ("start", "end", "voice", "staff")}
+
+
+def attr_crc(e, S):
+    return zlib.crc32(repr(sorted(attr_state(e, S).items())).encode())
 
 
 def enc_shape(spec, enc_part):
     def tree(t):
         if t[0] == "P":
             return "P " + enc_part[t[1]]
+        if t[0] == "X":
+            return "X"
         return "G " + W.lst(tree, t[1])
     sh = spec["shape"]
     return "one " + tree(sh[1]) if sh[0] == "one" else "many " + W.lst(tree, sh[1])
@@ -1000,14 +1203,14 @@ def enc_arg(spec, mops, enc_part):
 def f_tail(e, oid, S):
     return W.f_tuple(W.f_opt(W.f_int, oid.get(e)), type(e).__name__, W.f_opt(W.f_int, None if e.end is None else e.end.t),
                      W.f_opt(W.f_int, getattr(e, "voice", None)), W.f_opt(W.f_int, getattr(e, "staff", None)),
-                     W.f_list(W.f_int, [oid.of(x) for x in ref_objects(e, S)]))
+                     W.f_list(W.f_int, [oid.of(x) for x in ref_objects(e, S)]), W.f_int(attr_crc(e, S)))
 
 
 def f_elem(e, oid, S):
     return W.f_tuple(W.f_opt(W.f_int, oid.get(e)), type(e).__name__, W.f_int(e.start.t),
                      W.f_opt(W.f_int, None if e.end is None else e.end.t),
                      W.f_opt(W.f_int, getattr(e, "voice", None)), W.f_opt(W.f_int, getattr(e, "staff", None)),
-                     W.f_list(W.f_int, [oid.of(x) for x in ref_objects(e, S)]))
+                     W.f_list(W.f_int, [oid.of(x) for x in ref_objects(e, S)]), W.f_int(attr_crc(e, S)))
 
 
 def doc_structural(S):
@@ -1034,7 +1237,8 @@ def prepare(parts, spec, S, order=None, mops=()):
     pr = Prep()
     pr.parts = parts
     pr.spec = spec
-    pr.order = flat_order(spec) if order is None else list(order)
+    pr.listed = flat_order(spec) if order is None else list(order)   # as the argument lists them
+    pr.order = distinct(pr.listed)                                     # the different parts: the inputs
     oid = pr.oid = Oids()
     pr.elems = {}
     pr.tails = {}
@@ -1050,8 +1254,9 @@ def prepare(parts, spec, S, order=None, mops=()):
             oid.new(e)
     enc_part = {}
     for pi, p in enumerate(parts):
-        enc_part[pi] = "%d %s %s %s" % (pi, W.lst(W.i, qd_list(p)), W.lst(lambda e: enc_elem(e, oid, S), pr.elems[pi]),
-                                        W.lst(lambda e: enc_elem(e, oid, S), pr.tails[pi]))
+        enc_part[pi] = "%d %s %s %s %s" % (pi, W.opt(W.s, p.id), W.lst(W.i, qd_list(p)),
+                                           W.lst(lambda e: enc_elem(e, oid, S), pr.elems[pi]),
+                                           W.lst(lambda e: enc_elem(e, oid, S), pr.tails[pi]))
         for e in pr.elems[pi]:
             if isinstance(e, S.Note):
                 if e.duration_tied != e.duration + sum(x.duration for x in e.tie_next_notes):
@@ -1105,7 +1310,10 @@ def evaluate(d):
             raise RuntimeError("the two builds of the input differ")
         extra = {"score": bool(x.spec.get("score")), "parts_ok": x.parts_ok, "twin": tw.arg}
         pr = prepare(parts, x.spec, S, x.order, x.mops)
-        res, err = call(S.merge_parts, arg, mode)
+        if d.get("omit"):
+            res, err = call(S.merge_parts, arg)    # reassign is left at its default
+        else:
+            res, err = call(S.merge_parts, arg, mode)
     else:
         import partitura.io as IO
 
@@ -1152,7 +1360,8 @@ def evaluate(d):
             def spy(*a, **k):
                 scr = orig(*a, **k)
                 ps = list(scr.parts)
-                hold["pr"] = prepare(ps, spec_of(scr, ps)[0], S)
+                # the model is given the Score object that was loaded (what it was built from, no history)
+                hold["pr"] = prepare(ps, dict(spec_of(scr, ps)[0], score=True), S)
                 return scr
 
             IO.load_score = spy
@@ -1185,14 +1394,17 @@ def evaluate(d):
             res, err = call(S.merge_parts, arg, mode)
     oid, order, shape_txt, snap = pr.oid, pr.order, pr.shape_txt, pr.snap
     res_elems = None
+    # the token for `reassign`: its value, or `-` when the argument is left out (the model then takes the default
+    # of the signature, and for load_score_as_part what the source of that function passes)
+    rtok = "-" if d.get("omit") or op == "load" else W.s(mode)
 
     # ---- correspondence
     if extra["score"]:
         # the parts a Score holds after its history, as the caller reads them from the object
-        ev.requests.append("parts %s %s" % (W.s(mode), shape_txt))
+        ev.requests.append("parts %s %s" % (rtok, shape_txt))
         index = {id(p): i for i, p in enumerate(parts)}
         ev.impl.append(W.f_list(W.f_int, [index.get(id(q), -1) for q in list(arg.parts)]))
-    ev.requests.append("%s %s %s" % (op, W.s(mode), shape_txt))
+    ev.requests.append("%s %s %s" % (op, rtok, shape_txt))
     if err is not None:
         ev.impl.append("err")
     elif any(res is p for p in parts):
@@ -1203,19 +1415,19 @@ def evaluate(d):
         res_elems = list(res.iter_all())
         ev.impl.append(W.f_tuple(W.f_int(L), W.f_list(lambda e: f_elem(e, oid, S), res_elems),
                                  W.f_list(lambda tp: W.f_int(tp.t), res._points)))
-        ev.requests.append("quarters %s %s" % (W.s(mode), shape_txt))
+        ev.requests.append("quarters %s %s" % (rtok, shape_txt))
         ev.impl.append(W.f_list(lambda tp: W.f_opt(W.f_int, tp.quarter), res._points))
         res_tails = end_only_objects(res)
         here = {id(e) for e in starting_objects(res)} | {id(e) for e in res_tails}
         dang = sorted((oid.of(e), oid.of(x)) for e in res_elems + res_tails for x in ref_objects(e, S) if id(x) not in here)
-        ev.requests.append("dangling %s %s" % (W.s(mode), shape_txt))
+        ev.requests.append("dangling %s %s" % (rtok, shape_txt))
         ev.impl.append(W.f_list(lambda t: W.f_tuple(W.f_int(t[0]), W.f_int(t[1])), dang))
         if any(pr.tails[i] for i in order) or res_tails:
-            ev.requests.append("tails %s %s" % (W.s(mode), shape_txt))
+            ev.requests.append("tails %s %s" % (rtok, shape_txt))
             ev.impl.append(W.f_list(lambda e: f_tail(e, oid, S), sorted(res_tails, key=oid.of)))
     if err is None:
         na, e2 = call(res.note_array, include_staff=True)
-        ev.requests.append("rows %s %s" % (W.s(mode), shape_txt))
+        ev.requests.append("rows %s %s" % (rtok, shape_txt))
         if e2 is not None:
             ev.impl.append("err:note_array")
         else:
@@ -1236,9 +1448,10 @@ def evaluate(d):
             ev.impl.append(W.f_list(lambda r: W.f_tuple(W.f_int(r[2]), W.f_int(r[0]), W.f_int(r[3]), W.f_int(r[1]), W.f_int(r[4]), W.f_int(r[5])), rows))
     ref_rows = None
     all_sounding = all(len(fresh[i].notes_tied) > 0 for i in order)
-    if all_sounding and pr.outside is None and all(len(fresh[i]._quarter_durations) == 1 for i in order):
+    bad_arg = d.get("k", "merge") == "merge" and has_bad(d["arg"])
+    if order and not bad_arg and all_sounding and pr.outside is None and all(len(fresh[i]._quarter_durations) == 1 for i in order):
         sna, e3 = call(note_array_from_part_list, [fresh[i] for i in order])
-        ev.requests.append("ref %s %s" % (W.s(mode), shape_txt))
+        ev.requests.append("ref %s %s" % (rtok, shape_txt))
         if e3 is not None:
             ev.impl.append("err:score_note_array")
         else:
@@ -1249,8 +1462,16 @@ def evaluate(d):
     valid_mode = mode in MODES
     if not valid_mode:
         if err is None:
-            ev.oracle.append("rejects: reassign=%r was accepted" % mode)
+            ev.oracle.append("rejects: reassign=%r was accepted" % (mode,))
         ev.key = None
+        return ev
+    if bad_arg:
+        ev.key = None   # an object that is neither a part nor a group: outside the property, only compared
+        ev.info = {"outside": "bad argument"}
+        return ev
+    if len(order) == 0:
+        ev.key = None   # nothing to merge
+        ev.info = {"outside": "no parts"}
         return ev
     if len(order) > 1 and pr.multi:
         if err is None:
@@ -1271,7 +1492,7 @@ def evaluate(d):
         ev.oracle.append("scoreparts: Score.parts does not hold the parts that were put there (item assignment / list "
                          "operations on score.parts)")
     ref_score = None
-    if extra["score"] and ref_rows is not None and extra["twin"] is not None:
+    if extra["score"] and ref_rows is not None and extra["twin"] is not None and len(pr.listed) == len(order):
         # the score-level note array as the Score object itself gives it
         sna2, e4 = call(extra["twin"].note_array)
         if e4 is None:
@@ -1296,6 +1517,7 @@ def snapshot(parts, S):
                 "symdur": (e.symbolic_duration if isg and len(qd) == 1 else None),
                 "name": "%s %s" % (type(e).__name__, getattr(e, "id", None) or ""),
                 "refs": ref_objects(e, S) if isinstance(e, S.TimedObject) else [],
+                "attrs": attr_state(e, S),
             }
     return snap
 
@@ -1381,6 +1603,16 @@ def oracle(d, parts, order, snap, res, res_elems, mode, fp_before, ref_rows, S, 
             fails.append("pitch: %s changed pitch" % s["name"])
         if isinstance(e, S.GenericNote) and s["symdur"] != e.symbolic_duration:
             fails.append("symdur: %s had symbolic duration %r, in the merged part %r" % (s["name"], s["symdur"], e.symbolic_duration))
+        # the element itself: every other attribute it carried (id, step, alter, octave, articulations, text ...) is
+        # as before (an attribute that merging adds for its own book-keeping, named _xxx, is not an attribute of the
+        # element)
+        now_attrs = attr_state(e, S)
+        changed = sorted(k for k in set(now_attrs) | set(s["attrs"])
+                         if now_attrs.get(k, "<absent>") != s["attrs"].get(k, "<absent>")
+                         and not (k.startswith("_") and k not in s["attrs"]))
+        if changed:
+            fails.append("attrs: %s of part %d is in the merged part with other attributes than before: %s" % (
+                s["name"], order.index(s["part"]), ", ".join("%s %r -> %r" % (k, s["attrs"].get(k, "<absent>"), now_attrs.get(k, "<absent>")) for k in changed[:3])))
         # references (ties, slurs, tuplets, beams, grace chains ...): the very same objects, and a referenced object
         # that the merged part must hold is registered on it
         now = ref_objects(e, S)
@@ -1580,7 +1812,7 @@ def distribution(descs, results):
 
     files = [d for d in descs if d.get("k", "merge") != "merge"]
     descs = [d for d in descs if d.get("k", "merge") == "merge"]
-    modes = Counter(d["mode"] for d in descs)
+    modes = Counter(str(d["mode"]) for d in descs)
     nparts = Counter(len(d["parts"]) for d in descs)
     divs = Counter(str(tuple(p["divs"] for p in d["parts"])) for d in descs)
     shapes = Counter(("score:" if d["arg"]["score"] else "") + d["arg"]["shape"][0] for d in descs)
@@ -1602,5 +1834,10 @@ def distribution(descs, results):
             "history_steps": dict(steps), "score_history_steps": dict(sops),
             "end_only_directions_with_staff": sum(len(p.get("endonly", [])) for d in descs for p in d["parts"]),
             "tuple_arguments": sum(1 for d in descs if d["arg"].get("tuple")),
+            "identity_kinds": dict(Counter(d["ident"] for d in descs if d.get("ident"))),
+            "arguments_listing_a_part_twice": sum(1 for d in descs if len(flat_order(d["arg"])) != len(set(flat_order(d["arg"])))),
+            "cases_with_parts_sharing_an_id": sum(1 for d in descs if len({str(p["id"]) for p in d["parts"]}) < len(d["parts"])),
+            "call_kinds": dict(Counter(d["callkind"] for d in descs if d.get("callkind"))),
+            "reassign_left_out": sum(1 for d in descs if d.get("omit")),
             "file_cases": dict(Counter(d["via"] for d in files)), "files": len({d["file"] for d in files}),
             "rejected_inputs": sum(1 for r in results if r.get("key") is None)}
